@@ -81,7 +81,7 @@ for d in sorted(glob.glob("/verif/seeded/*/")):
             checks[k] = v
     if not checks:
         checks = dict(re.findall(r"check (C\d+) exit (\d+)", txt))
-    prop, needs = NEEDS.get(name, (name[3:6] if name[:3] in ("r2-", "r3-", "r4-", "r5-") else name[:3], "see README.md"))
+    prop, needs = NEEDS.get(name, (name[3:6] if name[:3] in ("r2-", "r3-", "r4-", "r5-", "r6-") else name[:3], "see README.md"))
     meta = dict(
         name=name, breaks_property=prop, needs_to_manifest=needs,
         origin="written by an independent sub-agent that saw only the property text and a scratch worktree of the repository",
